@@ -27,13 +27,21 @@ BP = "utype/parser/base.py"
 
 
 class Shape:
-    def __init__(self, tag, keys, fields, ci_names=()):
+    def __init__(self, tag, keys, fields, ci_names=(), deps=None, attnames=None):
         self.tag, self.keys, self.fields, self.ci_names = tag, keys, fields, tuple(ci_names)
+        self.deps = deps or {}          # field key -> names of the fields it depends on
+        # attribute names, when they differ from the field names: the parse is then run with as_attname=True (results
+        # and dependency sets are keyed by attribute name, as ClassParser / FunctionParser do for their instances)
+        self.attnames = attnames or {}
+        self.as_attname = bool(attnames)
         self.alias_to_field = {}
         for fk, (_, aliases) in fields.items():
             for a in aliases:
                 self.alias_to_field[a] = fk
         self.known_keys = set(self.alias_to_field) | {a.upper() for a in self.alias_to_field if a in self.ci_names}
+
+    def outname(self, fkey):
+        return self.attnames.get(fkey, self.fields[fkey][0]) if self.as_attname else self.fields[fkey][0]
 
     def field_of_key(self, key):
         if key in self.alias_to_field:
@@ -50,7 +58,11 @@ else:
     MAIN = Shape("", ["a", "x", "b", "zz"], {"f1": ("a", ("a", "x")), "f2": ("b", ("b",))})
 # second shape: f2 is case-insensitive (given as 'B'), f1 has a case-SENSITIVE second name 'X'
 CI = Shape("ci", ["a", "X", "B", "ZZ"], {"f1": ("a", ("a", "X")), "f2": ("b", ("b",))}, ci_names=("b",))
-SHAPES = {"": MAIN, "ci": CI}
+# third shape: f1 declares dependencies=['b'] ("when the input provides the field, the dependency fields must also be provided")
+DEP = Shape("dep", ["a", "b", "zz"], {"f1": ("a", ("a",)), "f2": ("b", ("b",))}, deps={"f1": ("b",)})
+DEPATTR = Shape("depattr", ["a", "b", "zz"], {"f1": ("a", ("a",)), "f2": ("b", ("b",))}, deps={"f1": ("b",)},
+                attnames={"f1": "a_", "f2": "b_"})
+SHAPES = {"": MAIN, "ci": CI, "dep": DEP, "depattr": DEPATTR}
 
 
 class LoopParserModel(RecordModel):
@@ -72,10 +84,14 @@ def _mk_fields(shape):
         d = VDict()
         for fkey, (name, aliases) in shape.fields.items():
             rec = ex.world.models["ParserField"].fresh(
-                ex, "loop_" + fkey, **{"name": Str(name), "attname": Str(name), "on_error": Str("throw"), "type": Cls(name="ftype_" + fkey),
+                ex, "loop_" + fkey, **{"name": Str(name), "attname": Str(shape.attnames.get(fkey, name)), "on_error": Str("throw"), "type": Cls(name="ftype_" + fkey),
                                        "required": BOOL, "no_input": BOOL, "mode": NONE, "final": BOOL, "default": OBJ, "default_factory": NONE,
                                        "discriminator_map": NONE, "dependencies": NONE})
             rec.fields["all_aliases"] = VTup([VStr(a) for a in aliases])
+            if shape.deps.get(fkey):
+                rec.fields["dependencies"] = VTup([VStr(d) for d in shape.deps[fkey]], "set")
+                n2f = {v[0]: k for k, v in shape.fields.items()}
+                rec.fields["attr_dependencies"] = VTup([VStr(shape.attnames.get(n2f[d], d)) for d in shape.deps[fkey]], "set")
             ex.assume(sym.truthy_f(rec.fields["type"].t))
             ex.assume(rec.fields["default"].t != ex.world.opaque_const("unprovided"))
             d.items[fkey] = (z3.BoolVal(True), rec)
@@ -130,7 +146,7 @@ def _cases(shape):
                 continue            # the addition policy only matters when an unknown key is given
             for mn, md in (("fail-fast", FALSE), ("collect", TRUE)):
                 out["%s|%s|%s" % ("+".join(present) or "empty", an, mn)] = dict(
-                    self=_LoopParserDesc(shape), data=_data_desc(shape, present),
+                    self=_LoopParserDesc(shape), data=_data_desc(shape, present), **({"as_attname": TRUE} if shape.as_attname else {}),
                     context=Rec("RuntimeContext", options=Rec(
                         "Options", invalid_values=STR, collect_errors=md, max_errors=NONE, mode=NONE, ignore_required=BOOL,
                         force_default=UNPROVIDED, no_default=BOOL, defer_default=BOOL, addition=ad, ignore_alias_conflicts=FALSE)))
@@ -165,6 +181,7 @@ def _F(fkey):
 def _field_terms(shape, fkey, present):
     """(error condition, output clause on `result`) of one declared field, as clause texts"""
     name, aliases = shape.fields[fkey]
+    name = shape.outname(fkey)          # the key of the result
     f = _F(fkey)
     # the input names under which this field is given, in alias order (a case-insensitive name also in upper case)
     given = [k for a in aliases for k in ([a] + ([a.upper()] if a in shape.ci_names else [])) if k in present]
@@ -173,6 +190,7 @@ def _field_terms(shape, fkey, present):
     required_now = "((not %s.ignore_required) and (%s.required is True) and not %s)" % (o, f, ani)
     gate = "((not %s.no_default) and not (%s.defer_default or %s.defer_default))" % (o, f, o)
     default_out = "(rd_copied(result, '%s', %s.default) if %s else not rd_has(result, '%s'))" % (name, f, gate, name)
+    _FACTS[fkey] = dict(given=bool(given), stored="False", ignored_or_rejected="False")
     if not given:
         err = required_now
         out = "implies(not %s, %s)" % (required_now, default_out)
@@ -182,6 +200,7 @@ def _field_terms(shape, fkey, present):
     cv = "converted(%s.type, %s, context)" % (f, v)
     errs = ["(not %s and not %s)" % (ani, acc)]
     out = "(%s) if %s else (implies(%s, rd_is(result, '%s', %s)))" % (default_out, ani, acc, name, cv)
+    _FACTS[fkey].update(stored="(not %s and %s)" % (ani, acc), ignored_or_rejected="(%s or not %s)" % (ani, acc))
     if len(given) > 1:
         # several input names of one field carry values: a conflict unless they all equal the first one
         differs = " or ".join("(data['%s'] != data['%s'])" % (g, given[0]) for g in given[1:])
@@ -196,10 +215,12 @@ def _field_terms(shape, fkey, present):
 
 
 _EXTRA = []
+_FACTS = {}
 
 
 def _spec(shape, case):
     del _EXTRA[:]
+    _FACTS.clear()
     pres, an, mode = case.split("|")
     present = [] if pres == "empty" else pres.split("+")
     unknown = shape.keys[-1]
@@ -208,6 +229,20 @@ def _spec(shape, case):
         e, o = _field_terms(shape, fkey, present)
         errs += e
         outs["%s_as_documented" % fkey] = o
+    # dependencies (docs/en/references/field.md, "Field dependency"): when the input provides a field (its value was
+    # accepted and stored), the fields it depends on must be provided as well.  A dependency that IS given but whose
+    # input is ignored (no_input) or rejected is named by the implementation as lacking too: allowed, not demanded.
+    mays = []
+    name_to_fkey = {v[0]: k for k, v in shape.fields.items()}
+    for fkey, deps in shape.deps.items():
+        if len(shape.fields[fkey][1]) != 1:
+            raise ValueError("dependency shapes use single-name fields")
+        for dn in deps:
+            df = _FACTS[name_to_fkey[dn]]
+            if not df["given"]:
+                errs.append("(%s)" % _FACTS[fkey]["stored"])
+            else:
+                mays.append("(%s and %s)" % (_FACTS[fkey]["stored"], df["ignored_or_rejected"]))
     if unknown in present:
         if an == "addition-true":
             outs["unknown_key_kept_as_given"] = "rd_is(result, '%s', data['%s'])" % (unknown, unknown)
@@ -218,20 +253,21 @@ def _spec(shape, case):
     nerr = " + ".join("(1 if %s else 0)" % e for e in errs) if errs else "0"
     anyerr = " or ".join(errs) if errs else "False"
     returns, raises = {}, {}
+    optional = list(_EXTRA) + mays
     if mode == "fail-fast":
         returns["accepted_only_without_any_failing_item"] = "not (%s)" % anyerr
         returns.update({k: v for k, v in outs.items()})
         returns["no_error_recorded"] = "len(context.errors) == old(len(context.errors))"
-        raises = {"ParseError": {"rejected_only_for_a_failing_item": anyerr}}
+        raises = {"ParseError": {"rejected_only_for_a_failing_item": " or ".join([anyerr] + mays)}}
     else:
-        if _EXTRA:
-            extra = " + ".join("(1 if %s else 0)" % e for e in _EXTRA)
+        if optional:
+            extra = " + ".join("(1 if %s else 0)" % e for e in optional)
             returns["one_error_per_failing_item"] = ("len(context.errors) >= old(len(context.errors)) + %s and "
                                                      "len(context.errors) <= old(len(context.errors)) + %s + %s" % (nerr, nerr, extra))
         else:
             returns["one_error_per_failing_item"] = "len(context.errors) == old(len(context.errors)) + %s" % nerr
         returns.update({k: "implies(not (%s), %s)" % (anyerr, v) for k, v in outs.items()})
-    returns["only_declared_or_given_names"] = "rd_only(result, 'a', 'b', '%s')" % unknown
+    returns["only_declared_or_given_names"] = "rd_only(result, %s, '%s')" % (", ".join(repr(shape.outname(k)) for k in shape.fields), unknown)
     return returns, raises
 
 
@@ -282,9 +318,10 @@ def _loop_contract(fname, shape):
         frame = ["data"]
         modifies = ["context.errors"]
         assumes = ["BOUNDED shape %r: two declared fields with input names %s%s, input keys %s in that order, "
-                   "no dependencies / excluded keys, on_error = throw, ignore_alias_conflicts off"
+                   "%s, no excluded keys, on_error = throw, ignore_alias_conflicts off"
                    % (shape.tag or "main", {k: v[1] for k, v in shape.fields.items()},
-                      (", case-insensitive names %s" % (shape.ci_names,)) if shape.ci_names else "", shape.keys)]
+                      (", case-insensitive names %s" % (shape.ci_names,)) if shape.ci_names else "", shape.keys,
+                      ("dependencies %s" % shape.deps) if shape.deps else "no dependencies")]
     if shape.tag:
         _.key = (BP, "BaseParser.%s#%s" % (fname, shape.tag))
     return _
@@ -294,3 +331,7 @@ FIELD_FIRST = _loop_contract("field_first_parse", MAIN)
 DATA_FIRST = _loop_contract("data_first_parse", MAIN)
 FIELD_FIRST_CI = _loop_contract("field_first_parse", CI)
 DATA_FIRST_CI = _loop_contract("data_first_parse", CI)
+FIELD_FIRST_DEP = _loop_contract("field_first_parse", DEP)
+DATA_FIRST_DEP = _loop_contract("data_first_parse", DEP)
+FIELD_FIRST_DEPATTR = _loop_contract("field_first_parse", DEPATTR)
+DATA_FIRST_DEPATTR = _loop_contract("data_first_parse", DEPATTR)
